@@ -30,6 +30,7 @@ from ..Models.Beam._beam import BeamStructure, _Beam, Isotropic
 
 # simu
 from ._simu import _Simu, SolverType
+from .Solvers import AlgoType
 from ._problem_type import ProblemType
 
 
@@ -497,6 +498,10 @@ class Beam(_Simu):
             iter = {}
 
         iter["displacement"] = self.displacement
+        if self.algo in AlgoType.Get_Hyperbolic_Types():
+            # a dynamic analysis: the rates belong to the state as well
+            iter["speed"] = self._Get_v_n(self.problemType)
+            iter["accel"] = self._Get_a_n(self.problemType)
 
         return super().Save_Iter(iter)
 
@@ -506,7 +511,20 @@ class Beam(_Simu):
         if results is None:
             return
 
-        self._Set_solutions(self.problemType, results["displacement"])
+        u = results["displacement"]
+
+        if (
+            self.algo in AlgoType.Get_Hyperbolic_Types()
+            and "speed" in results
+            and "accel" in results
+        ):
+            v = results["speed"]
+            a = results["accel"]
+        else:
+            v = np.zeros_like(u)
+            a = np.zeros_like(u)
+
+        self._Set_solutions(self.problemType, u, v, a)
 
         return results
 
